@@ -64,21 +64,29 @@ fn configs_a() -> Vec<YuvConfig> {
 }
 
 fn check_resolution(acc: &mut Acc, idx: u64, w: usize, h: usize, cfgs: &[YuvConfig]) {
-    check_resolution_t::<u8>(acc, idx, w, h, cfgs, 8);
+    check_resolution_t::<u8>(acc, idx, w, h, cfgs, 8, (0, 0));
+    // subsampled frames of the same luma size: the rule speaks about the image's (luma) dimensions,
+    // and the rest of the config - the subsampling included - must come back as given
+    for ss in [(1u8, 1u8), (1, 0), (0, 1), (2, 0)] {
+        if w % (1 << ss.0) == 0 && h % (1 << ss.1) == 0 && w * h <= 700_000 {
+            check_resolution_t::<u8>(acc, idx, w, h, cfgs, 8, ss);
+        }
+    }
     // the other storage / depth classes take different paths through the constructor (sample scan
     // for u16 below 16 bit, none at 16 bit); sizes are limited where the scan would dominate
     if w * h <= 20_000 {
-        check_resolution_t::<u16>(acc, idx, w, h, cfgs, 10);
+        check_resolution_t::<u16>(acc, idx, w, h, cfgs, 10, (0, 0));
     }
     if w * h <= 200_000 {
-        check_resolution_t::<u16>(acc, idx, w, h, cfgs, 16);
+        check_resolution_t::<u16>(acc, idx, w, h, cfgs, 16, (0, 0));
     }
 }
 
-fn check_resolution_t<T: Pixel>(acc: &mut Acc, idx: u64, w: usize, h: usize, cfgs: &[YuvConfig], depth: u8) {
+fn check_resolution_t<T: Pixel>(acc: &mut Acc, idx: u64, w: usize, h: usize, cfgs: &[YuvConfig], depth: u8, ss: (u8, u8)) {
+    let (sx, sy) = (ss.0 as usize, ss.1 as usize);
     // two differently padded frames with the same visible geometry (samples are all 0: in range at any depth)
     let mk_frame = |pad: usize| -> Frame<T> {
-        let mut f: Frame<T> = Frame { planes: [Plane::new(w, h, 0, 0, pad, pad), Plane::new(w, h, 0, 0, pad, pad), Plane::new(w, h, 0, 0, pad, pad)] };
+        let mut f: Frame<T> = Frame { planes: [Plane::new(w, h, 0, 0, pad, pad), Plane::new(w >> sx, h >> sy, sx, sy, pad, pad), Plane::new(w >> sx, h >> sy, sx, sy, pad, pad)] };
         for p in f.planes.iter_mut() {
             for v in p.data.iter_mut() {
                 *v = T::cast_from(0u16);
@@ -90,6 +98,8 @@ fn check_resolution_t<T: Pixel>(acc: &mut Acc, idx: u64, w: usize, h: usize, cfg
     for c0 in cfgs {
         let mut cc = *c0;
         cc.bit_depth = depth;
+        cc.subsampling_x = ss.0;
+        cc.subsampling_y = ss.1;
         let c = &cc;
         let case = || json!({"kind":"c15res","w":w,"h":h,"cfg":cfg_json(c),"u16":std::mem::size_of::<T>()==2});
         acc.states += 1;
@@ -499,9 +509,9 @@ pub fn replay(case: &Value) -> (bool, String) {
         "c15res" => {
             let (w, h, c) = (case["w"].as_u64().unwrap() as usize, case["h"].as_u64().unwrap() as usize, cfg_from(&case["cfg"]));
             if case["u16"].as_bool().unwrap_or(false) {
-                check_resolution_t::<u16>(&mut acc, 0, w, h, &[c], c.bit_depth)
+                check_resolution_t::<u16>(&mut acc, 0, w, h, &[c], c.bit_depth, (c.subsampling_x, c.subsampling_y))
             } else {
-                check_resolution_t::<u8>(&mut acc, 0, w, h, &[c], c.bit_depth)
+                check_resolution_t::<u8>(&mut acc, 0, w, h, &[c], c.bit_depth, (c.subsampling_x, c.subsampling_y))
             }
         }
         "c15rgb" => check_rgb_labels(&mut acc),
